@@ -445,7 +445,16 @@ class C11(Check):
                 if sub is not None:
                     best = [mand[j]] + sub
             if best is None:
-                cands = sorted((oi for oi, o in enumerate(opt) if oi not in used and fits(o)), key=lambda oi: abs(opt[oi]["x"]["t0"] - vt))
+                def agrees(o: dict[str, Any]) -> int:
+                    # among twins (same bytes, overlapping time windows) prefer the exchange whose recorded details agree
+                    c_ = o["call"]
+                    if c_ is None or c_["out"] not in ("return", "raise"):
+                        return 0
+                    want_mode_ = "emphasized" if c_["analyze"] else "implicit"
+                    rp_ = bytes.fromhex(rows[i][2]) if rows[i][2] is not None else None
+                    return 0 if (rows[i][7] == want_mode_ and rp_ == o["reply"]) else 1
+
+                cands = sorted((oi for oi, o in enumerate(opt) if oi not in used and fits(o)), key=lambda oi: (agrees(opt[oi]), abs(opt[oi]["x"]["t0"] - vt)))
                 for oi in cands:
                     sub = match(i + 1, j, used | {oi})
                     if sub is not None:
